@@ -56,6 +56,18 @@ ILL4 = [
     ("pf|dp contracted core p, diffuse pair 3 bohr apart", [(1, _CORE6), (1, _CORE6)], [(3, [0.2]), (2, [0.3])],
      [[0.0, 0.0, 0.0], [2.6, 0.4, -0.3], [0.5, 2.2, 0.9], [2.0, -1.8, 1.1]]),
 ]
+# Used by C11 only (the symmetry statement): d and p contractions that hold a 2000 and a 0.2 primitive are outside the exponent
+# ranges for which C04 states its accuracy bound (measured on the unchanged tree: up to 1.2e-2 of the Schwarz scale in the
+# arrangements that mix the pairs), but the eight orientations of such a quartet must still agree with each other.
+ILL4_SYMMETRY = [
+    # BOTH pairs hold a tight and a diffuse primitive and carry the same angular momentum, four centres about one bohr apart:
+    # the two orientations have large, nearly equal amplification estimates (within a factor 100 of each other, not tied), so
+    # the choice between them hangs on a small margin - and must come out the same whichever way the caller lists the pairs
+    ("dp|dp both pairs 2000..0.2, four centres", [(2, [2000.0, 0.20]), (1, [1800.0, 0.18])], [(2, [1500.0, 0.30]), (1, [1650.0, 0.33])],
+     [[0.10, -0.35, 0.20], [1.05, 0.40, -0.15], [-0.60, 0.85, 0.90], [0.35, -0.95, 1.30]]),
+    ("pd|dp both pairs 400..0.5, four centres", [(1, [400.0, 0.50]), (2, [360.0, 0.45])], [(2, [300.0, 0.60]), (1, [330.0, 0.66])],
+     [[0.10, -0.35, 0.20], [1.05, 0.40, -0.15], [-0.60, 0.85, 0.90], [0.35, -0.95, 1.30]]),
+]
 
 
 def amp(bra, ket):
